@@ -93,10 +93,31 @@ def run(ctx):
             b = r.choice(bs)
             tok = FRESH if r.chance(0.7) else r.choice(["'" + FRESH + "'", "90417"])
             stray.append((d, t[:b] + " " + tok + " " + t[b:], tok.strip("'"), a, t))
+        # a stray BRACKET GROUP holding the fresh token: at a random boundary, and next to every bracket that is already there (a second subscript, a second
+        # argument list, a second column list: a parser that loops over groups where it should take one keeps only one of them)
+        for o, c in (("[", "]"), ("(", ")")):
+            spots = [i for i, ch_ in enumerate(t) if ch_ == o][:3] + [i + 1 for i, ch_ in enumerate(t) if ch_ == c][:3]
+            if "'" in t or '"' in t or "`" in t:
+                spots = [i for i in spots if i in bs]        # inside a quoted region a bracket is not a bracket
+            for b in spots[:4] + [r.choice(bs)]:
+                tok = r.choice([FRESH, "90417"])
+                stray.append((d, t[:b] + " " + o + tok + c + " " + t[b:], tok, a, t))
     rs, _ = ctx.corr([pfam.req_parse(d, t) for d, t, _, _, _ in stray], stream="stray")
-    for (d, t, tok, base, orig), (_, a, _) in zip(stray, rs):
+    # an accepted text with a stray token is a text like any other: everything else written in it must still be accounted for
+    acc_idx = [i for i, (_, a, _) in enumerate(rs) if a.startswith("OK")]
+    acc2 = dict(zip(acc_idx, E.run_impl(["ACC %s %s" % (stray[i][0], E.enhex(stray[i][1])) for i in acc_idx])))
+    for i, ((d, t, tok, base, orig), (_, a, _)) in enumerate(zip(stray, rs)):
         if not a.startswith("OK"):
             ctx.count("stray:rejected"); continue
+        x = acc2.get(i, "")
+        import re as _re
+        lost = [w for w in (_re.search(r"lost=\[([^\]]*)\]", x).group(1).split(",") if x.startswith("OK differs") and "lost=[" in x else []) if w and w != tok]
+        word_before_group = (" " + tok + " ") in t and t.split(" " + tok + " ", 1)[-1].lstrip().startswith("(")
+        if lost and "differs-from-the-written-text" not in x and classify(d, t, x) is None and classify(d, orig, "") is None:
+            ctx.count("stray:accepted-but-something-else-lost")
+            pfam.report(ctx, "word-before-bracket-group" if word_before_group else "accounting:lost", {"kind": "input", "entry": "parse_statements + source", "dialect": d, "input": t, "original": orig, "observed": x[:400],
+                                                 "oracle": "c08: every identifier and literal of the input appears the same number of times in the printed statement", "how_found": "stream stray"})
+            continue
         if tok in a:
             ctx.count("stray:represented"); continue
         ctx.count("stray:IGNORED")
